@@ -2,7 +2,8 @@
 From Coq Require Import List NArith ZArith.
 Import ListNotations.
 From Stam Require Import Model.Offset Model.Json Model.TempId Model.StamJson Spec.StamJsonSpec Proofs.StamJson Proofs.StamJsonSave
-     Proofs.StamJsonLoad Proofs.StamJsonAnn Proofs.StamJsonWhole Proofs.StamJsonSub.
+     Proofs.StamJsonLoad Proofs.StamJsonAnn Proofs.StamJsonWhole Proofs.StamJsonSub
+     Model.Store Model.StamJsonView Proofs.StoreSets Proofs.CsvReach Proofs.StamJsonReach.
 
 (* THE PROPERTY.  For every well-formed store (Spec/StamJsonSpec.v wf_dstore: no dangling references,
    annotations refer to earlier annotations, ranges inside their text and their parent's range,
@@ -159,3 +160,25 @@ Theorem C05_documents_in_order : forall (X : Type) (nsubs : nat) (own : list (op
   natural_order nsubs own l = true ->
   concat (map (fun k => pick own (Some k) (live l)) (seq 0 nsubs)) ++ pick own None (live l) = live l.
 Proof. exact @parts_in_order. Qed.
+
+(* THE STORES OF THE PROPERTY.  Every store reachable by the operations of the store model
+   (add_resource, add_dataset, insert_data, annotate with all nine selector kinds, relative
+   offsets and complex selectors, remove_annotation / remove_data / remove_key / remove_resource /
+   remove_dataset, in any order, valid or not) has a well-formed document view, hence
+   round-trips.  Hypotheses: data builders carry no identifier or an identifier by name (op_ok,
+   as in C10), complex selectors have one of the three kinds of the API (kind_ok, as in C15),
+   and the slot counts are within the handle widths. *)
+Theorem C05_reachable_wellformed : forall ops rm sm,
+  Forall op_ok ops -> Forall kind_ok ops -> sizes_fit (run ops) ->
+  str_nodup (file_names (view (run ops) rm sm)) = true ->
+  wf_dstore (view (run ops) rm sm) = true.
+Proof. exact reachable_wf. Qed.
+
+Theorem C05_reachable_roundtrip : forall ops,
+  Forall op_ok ops -> Forall kind_ok ops -> sizes_fit (run ops) -> roundtrip_ok (view (run ops) 0 0).
+Proof. exact reachable_roundtrip. Qed.
+
+Theorem C05_reachable_roundtrip_standoff : forall ops rm sm,
+  Forall op_ok ops -> Forall kind_ok ops -> sizes_fit (run ops) ->
+  str_nodup (file_names (view (run ops) rm sm)) = true -> roundtrip_ok (view (run ops) rm sm).
+Proof. exact reachable_roundtrip_standoff. Qed.
